@@ -12,6 +12,7 @@ package main
 //       modification time with the cached template's.
 
 import (
+	"fmt"
 	"go/token"
 	"go/types"
 	"strings"
@@ -191,6 +192,7 @@ func checkC15(w *World, r *Report) {
 
 	// ---- R15.2
 	checkLoaderLoops(w, r)
+	checkModTimeSources(w, r)
 	// loaders are only appended
 	n2 := 0
 	for _, fn := range w.pkgFuncs() {
@@ -743,4 +745,129 @@ func describeLoader(v ssa.Value) string {
 		}
 	}
 	return v.Name()
+}
+
+// checkModTimeSources — R15.5: a loader's GetModifiedTime reports when the thing it loads from
+// last changed.  The engine decides staleness by comparing that number with the one it stored
+// at load time, so "a change is visible to the next call" needs the number to move whenever the
+// stored bytes are replaced: on every successful return it derives from the file system's
+// modification time of a file (os.FileInfo.ModTime) or from another loader's GetModifiedTime
+// (delegation) — not from a value recorded inside the file, a field or a constant.
+func checkModTimeSources(w *World, r *Report) {
+	ta, ok := w.named("TimestampAwareLoader").Underlying().(*types.Interface)
+	if !ok {
+		cannotDecide("anchor TimestampAwareLoader is not an interface")
+	}
+	var derives func(v ssa.Value, seen map[ssa.Value]bool, d int) (bool, string)
+	derives = func(v ssa.Value, seen map[ssa.Value]bool, d int) (bool, string) {
+		if seen[v] || d > 10 {
+			return true, ""
+		}
+		seen[v] = true
+		switch x := v.(type) {
+		case *ssa.Call:
+			cc := x.Call
+			if cc.IsInvoke() {
+				if cc.Method.Name() == "ModTime" {
+					return true, ""
+				}
+				if cc.Method.Name() == "GetModifiedTime" {
+					return true, ""
+				}
+				return false, "the result of " + cc.Method.Name()
+			}
+			f := cc.StaticCallee()
+			if f == nil {
+				return false, "a dynamic call"
+			}
+			if f.Name() == "GetModifiedTime" {
+				return true, ""
+			}
+			if f.Pkg != nil && f.Pkg.Pkg.Path() == "time" && f.Signature.Recv() != nil && len(cc.Args) > 0 {
+				return derives(cc.Args[0], seen, d+1) // t.Unix(), t.UnixNano(), t.UTC() …
+			}
+			if f.Pkg != nil && f.Pkg.Pkg.Path() == twigPath && len(f.Blocks) > 0 {
+				okAll, why := true, ""
+				instrsOf(f, func(in ssa.Instruction) {
+					ret, isRet := in.(*ssa.Return)
+					if !isRet || !okAll {
+						return
+					}
+					res := retResults(ret)
+					ei := errResultIndex(f.Signature)
+					if ei >= 0 && ei < len(res) && !isNilConst(res[ei]) {
+						return
+					}
+					if len(res) > 0 {
+						if o, wy := derives(res[0], seen, d+1); !o {
+							okAll, why = false, wy
+						}
+					}
+				})
+				return okAll, why
+			}
+			return false, "the result of " + f.String()
+		case *ssa.Extract:
+			return derives(x.Tuple, seen, d+1)
+		case *ssa.Phi:
+			for _, e := range x.Edges {
+				if o, why := derives(e, seen, d+1); !o {
+					return false, why
+				}
+			}
+			return true, ""
+		case *ssa.Convert:
+			return derives(x.X, seen, d+1)
+		case *ssa.ChangeType:
+			return derives(x.X, seen, d+1)
+		case *ssa.BinOp:
+			if _, isC := x.Y.(*ssa.Const); isC {
+				return derives(x.X, seen, d+1)
+			}
+			return false, "an arithmetic combination"
+		case *ssa.UnOp:
+			if u := unspill(x); u != ssa.Value(x) {
+				return derives(u, seen, d+1)
+			}
+			if fa, isFA := x.X.(*ssa.FieldAddr); isFA {
+				tn, f := fieldOfAddr(fa)
+				return false, "the field " + tn + "." + f
+			}
+			return false, "a stored value"
+		case *ssa.Field:
+			return false, "a field of " + x.X.Type().String()
+		case *ssa.Const:
+			return false, "the constant " + x.String()
+		}
+		return false, fmt.Sprintf("a value of kind %T", v)
+	}
+	n := 0
+	for _, fn := range w.pkgFuncs() {
+		if fn.Name() != "GetModifiedTime" || fn.Signature.Recv() == nil || fn.Synthetic != "" {
+			continue
+		}
+		rt := fn.Signature.Recv().Type()
+		if !types.Implements(rt, ta) && !types.Implements(types.NewPointer(deref(rt)), ta) {
+			continue
+		}
+		ei := errResultIndex(fn.Signature)
+		instrsOf(fn, func(in ssa.Instruction) {
+			ret, isRet := in.(*ssa.Return)
+			if !isRet {
+				return
+			}
+			res := retResults(ret)
+			if ei < 0 || ei >= len(res) || !isNilConst(res[ei]) || len(res) < 2 {
+				return
+			}
+			n++
+			construct := "reported modification time is the storage's own"
+			if o, why := derives(res[0], map[ssa.Value]bool{}, 0); o {
+				r.ok("R15.5", ssaName(fn), construct, w.posOf(ret.Pos()), "derives from os.FileInfo.ModTime (or a delegated GetModifiedTime)", true)
+			} else {
+				r.bad("R15.5", ssaName(fn), construct, w.posOf(ret.Pos()), "the loader reports "+why+" as the template's modification time, not the file system's time of the file it loads: the stored bytes can be replaced while this number stays the same (or goes back), and with auto-reload on the engine then keeps serving the cached template")
+			}
+		})
+	}
+	r.floor("successful returns of GetModifiedTime implementations", n, 2)
 }
